@@ -33,7 +33,7 @@ func init() {
 			}
 		}
 	}
-	req = append(req, "bitmap/empty", "bitmap/all-zero", "bitmap/all-one", "index/trailing", "index/no-trailing", "index/rebuilt-after-in-place-update", "ones>=32768", "ones>=65536", "words>=65536", "arguments-in-read-only-memory", "long-run/calls>=100000-per-function")
+	req = append(req, "bitmap/empty", "bitmap/all-zero", "bitmap/all-one", "index/trailing", "index/no-trailing", "index/rebuilt-after-in-place-update", "ones>=32768", "ones>=65536", "words>=65536", "arguments-in-read-only-memory", "long-run/calls>=100000-per-function", "bitmap=2^31-bits")
 	register(&mon.Prop{
 		ID:    "C01",
 		Level: "exploration",
@@ -62,6 +62,7 @@ func init() {
 				{Name: "zoo", Env: 8, N: c.Pick(60000, 6000000), Run: c01Zoo},
 				{Name: "zoo-long", Env: 4, N: c.Pick(1000, 200000), Run: c01ZooLong},
 				{Name: "dense-long", Env: 4, N: c.Pick(8, 400), Run: c01DenseLong},
+				{Name: "huge-bitmap", NoCold: true, N: b2i(c.Base() != "386"), Run: c01Huge},
 				lrFamily(c01LongRun),
 			}
 		},
@@ -393,4 +394,96 @@ func c01DenseLong(w *mon.W, idx int) {
 		}
 		w.Sample(func() interface{} { return mon.D{"nwords": n, "ones": ones, "what": "dense long bitmap"} })
 	}
+}
+
+// c01Huge (round 12): the largest bitmaps whose positions an int32 can name - 2^25-1 and 2^25 words (2^31 bits: the
+// last position is MaxInt32). A few 1-bits at the head, around 2^30 and in the last words; the pages in between are never
+// written. The indexes are built by the library and checked at sampled entries against the closed form; queries at the
+// positions around every 1-bit and at the very top. Not in the 386 flavour (the bitmap and its indexes take 450 MiB of
+// address space).
+func c01Huge(w *mon.W, _ int) {
+	for _, nw := range []int{1<<25 - 1, 1 << 25} {
+		n := int64(nw) * 64
+		words := make([]uint64, nw)
+		ones := []int64{3, 64, 127, 1 << 20, 1<<30 + 5, n - 4000, n - 129, n - 128, n - 65, n - 64, n - 2, n - 1}
+		for _, p := range ones {
+			words[p>>6] |= 1 << uint(p&63)
+		}
+		rank := func(i int64) int32 {
+			var c int32
+			for _, p := range ones {
+				if p < i {
+					c++
+				}
+			}
+			return c
+		}
+		bit := func(i int64) int32 { return int32(words[i>>6] >> uint(i&63) & 1) }
+		w.Op, w.A = "IndexRank64(huge)", int64(nw)
+		i64 := bitmap.IndexRank64(words)
+		w.Tick()
+		i64t := bitmap.IndexRank64(words, true)
+		w.Tick()
+		w.Op = "IndexRank128(huge)"
+		i128 := bitmap.IndexRank128(words)
+		w.Tick()
+		if len(i64) != nw || len(i64t) != nw+1 || len(i128) != nw/2+1 {
+			w.Fail("Index/shape", mon.D{"nwords": nw, "len_idx64": len(i64), "len_idx64_trailing": len(i64t), "len_idx128": len(i128)})
+			return
+		}
+		var ks []int64
+		for _, p := range ones {
+			for d := int64(-2); d <= 2; d++ {
+				if k := p>>6 + d; k >= 0 && k < int64(nw) {
+					ks = append(ks, k)
+				}
+			}
+		}
+		ks = append(ks, 0, 1, int64(nw)/2, int64(nw)-1)
+		for _, k := range ks {
+			e := rank(64 * k)
+			if i64[k] != e || i64t[k] != e || (k&1 == 0 && i128[k/2] != e) {
+				w.Fail("IndexRank/entry/huge-bitmap", mon.D{"nwords": nw, "entry": k, "idx64": i64[k], "idx64_trailing": i64t[k], "idx128": i128[k/2], "expected": e})
+				return
+			}
+		}
+		if i64t[nw] != int32(len(ones)) || (nw&1 == 0 && i128[nw/2] != int32(len(ones))) {
+			w.Fail("IndexRank/total/huge-bitmap", mon.D{"nwords": nw, "trailing_total": i64t[nw], "expected": len(ones)})
+			return
+		}
+		var qs []int64
+		for _, p := range ones {
+			for d := int64(-66); d <= 66; d++ {
+				if q := p + d; q >= 0 && q < n {
+					qs = append(qs, q)
+				}
+			}
+		}
+		for d := int64(1); d <= 200; d++ {
+			qs = append(qs, n-d)
+		}
+		qs = append(qs, 0, n/2, 1<<31-1-64*int64(1-b2i(nw == 1<<25)))
+		var ev int64
+		for _, q := range qs {
+			if q < 0 || q >= n || q > 1<<31-1 {
+				continue
+			}
+			er, eb := rank(q), bit(q)
+			w.Op, w.A, w.B = "Rank64(huge)", q, int64(nw)
+			c1, b1 := bitmap.Rank64(words, i64, int32(q))
+			c2, b2 := bitmap.Rank64(words, i64t, int32(q))
+			w.Op = "Rank128(huge)"
+			c3, b3 := bitmap.Rank128(words, i128, int32(q))
+			ev += 3
+			if c1 != er || c2 != er || c3 != er || b1 != eb || b2 != eb || b3 != eb {
+				w.Fail("Rank/huge-bitmap", mon.D{"nwords": nw, "i": q, "rank64": []int32{c1, b1}, "rank64_trailing_index": []int32{c2, b2}, "rank128": []int32{c3, b3}, "expected": []int32{er, eb}})
+				return
+			}
+		}
+		w.Eval(ev + 3)
+		w.Tick()
+	}
+	w.Bucket("bitmap=2^31-bits")
+	w.Distinct(gen.Hash64(0x2b31, 2))
+	w.Sample(func() interface{} { return mon.D{"nwords": []int{1<<25 - 1, 1 << 25}, "what": "indexes built by the library, queries around every 1-bit and at the last 200 positions"} })
 }
